@@ -147,19 +147,32 @@ def index_forms(r, c, ints_only=False):
     from odc.geo.types import Index2d, ixy_, iyx_, xy_, yx_
     forms = {"tuple": (r, c), "iyx_": iyx_(r, c), "ixy_": ixy_(c, r), "Index2d": Index2d(x=c, y=r),
              "yx_": yx_(r, c), "xy_": xy_(c, r), "iyx_(tuple)": iyx_((r, c)), "ixy_(tuple)": ixy_((c, r))}
+    # numpy integers: what np.argwhere rows and clip_tiles of an ndarray selection hand back
+    if max(abs(r), abs(c)) < 2 ** 62:
+        forms["(np.int64,np.int64)"] = (np.int64(r), np.int64(c))
+        forms["argwhere row"] = tuple(np.array([[r, c]], dtype=np.intp)[0])       # a row of np.argwhere(mask)
+        forms["iyx_(np.int64)"] = iyx_((np.int64(r), np.int64(c)))
+    if max(abs(r), abs(c)) < 2 ** 31 - 1:
+        forms["(np.int32,int)"] = (np.int32(r), c)
+    if 0 <= r < 255 and 0 <= c < 255:
+        forms["(np.uint8,np.uint8)"] = (np.uint8(r), np.uint8(c))
     if not ints_only:
+        if max(abs(r), abs(c)) < 2 ** 62:
+            forms["(np.int64,slice)"] = (np.int64(r), slice(c, c + 1))
+            forms["(slice,np.intp)"] = (slice(r, r + 1), np.intp(c))
         forms["(int,slice)"] = (r, slice(c, c + 1))
         forms["(slice,int)"] = (slice(r, r + 1), c)
         forms["(slice,slice)"] = (slice(r, r + 1), slice(c, c + 1))
     return forms
 
 
-FORM_NAMES = ["tuple", "iyx_", "ixy_", "Index2d", "yx_", "xy_"]
+FORM_NAMES = ["tuple", "iyx_", "ixy_", "Index2d", "yx_", "xy_", "(np.int64,np.int64)", "(np.int32,int)"]
 
 
 def as_form(idx, k):
     """the (r, c) pair in the k-th accepted object form (the model sees the same pair)"""
-    return index_forms(idx[0], idx[1], ints_only=True)[FORM_NAMES[k % len(FORM_NAMES)]]
+    forms = index_forms(idx[0], idx[1], ints_only=True)
+    return forms.get(FORM_NAMES[k % len(FORM_NAMES)], forms["tuple"])
 
 
 def tiles_desc(t) -> list[int]:
@@ -971,6 +984,7 @@ def p_clip(base, how, sel, form="list"):
         return False, f"selection {sel} given as {form}: {e}"
     if tiles_desc(T) != desc0:
         return False, "clip_tiles changed the tiling it was applied to"
+    new_raw, seen = list(new), []
     new = sel_as_list(new)
     if (roi[0].start, roi[0].stop, roi[1].start, roi[1].stop) != want_roi:
         return False, f"roi {roi} is not the bounding block of {sel} (given as {form})"
@@ -988,6 +1002,7 @@ def p_clip(base, how, sel, form="list"):
         GC, gnew = frozen("GeoboxTiles.clip", lambda: G.clip(arg), selection=arg)
     except ArgsChanged as e:
         return False, f"selection {sel} given as {form}: {e}"
+    graw = list(gnew)
     if sel_as_list(gnew) != new:
         return False, f"GeoboxTiles.clip indices {sel_as_list(gnew)} != clip_tiles indices {new} for {sel} (given as {form})"
     if gbox_desc(GC.base, root) != [oy, ox, whole[0].stop - oy, whole[1].stop - ox]:
@@ -996,6 +1011,12 @@ def p_clip(base, how, sel, form="list"):
         if (i, j) != (r - r0, c - c0):
             return False, f"index {(r, c)} re-based to {(i, j)} with block origin {(r0, c0)}"
         a, b = C[i, j], T[r, c]
+        raw = tuple(new_raw[len(seen)])          # the index exactly as clip_tiles returned it (numpy ints for ndarrays)
+        seen.append(raw)
+        if _err(lambda: C[raw]) != ("ok", a) or _err(lambda: tuple(C.tile_shape(raw).yx))[0] != "ok" or \
+                _err(lambda: GC[tuple(graw[len(seen) - 1])]) != ("ok", GC[i, j]):
+            return False, (f"the index {raw!r} returned by clip_tiles for {(r, c)} (selection given as {form}) "
+                           f"cannot be used on the clipped tiling: {_err(lambda: C[raw])}")
         if (a[0].start + oy, a[0].stop + oy, a[1].start + ox, a[1].stop + ox) != \
                 (b[0].start, b[0].stop, b[1].start, b[1].stop):
             return False, f"clipped[{i},{j}]={a} + origin ({oy},{ox}) != tiles[{r},{c}]={b}"
@@ -1084,6 +1105,13 @@ def p_assembler(chunks, pre, post, present, dtype, fill, roi, seed):
         sh = (*pre, chy[k[0]], chx[k[1]], *post)
         blocks[k] = (r.randint(1, 100, size=sh)).astype(dtype)
     axis = len(pre)
+    if seed % 3 == 0:        # block keys / int window items as numpy integers (np.argwhere, clip_tiles of an ndarray)
+        npi = [np.int64, np.int32, np.uint8][seed // 3 % 3]
+        blocks = {(npi(k[0]), npi(k[1])): b for k, b in blocks.items()}
+        if isinstance(roi, tuple):
+            roi = tuple(np.int64(v) if isinstance(v, int) and not isinstance(v, bool) else v for v in roi)
+        elif isinstance(roi, int):
+            roi = np.int64(roi)
     chunks_m = [list(chy), list(chx)]              # the arguments in mutable spellings: none may be modified
     odt = dtype if blocks else "float32"
     fillv = np.dtype(odt).type(fill)
